@@ -129,6 +129,10 @@ _RE_PROP = re.compile(r"(?:Action property|Temporal properties were violated|pro
 def tlc_cmd(module, cfg, workers=1, metadir=None, extra=None, java_opts=None, coverage=False,
             simulate=None, depth=None, deadlock=False):
     cmd = ["java", "-XX:+UseParallelGC"]
+    if metadir:
+        # concurrent TLC starts race on /tmp/tlc-*: give every run its own java.io.tmpdir
+        os.makedirs(metadir, exist_ok=True)
+        cmd.append("-Djava.io.tmpdir=" + metadir)
     cmd += (java_opts or [])
     cmd += ["-cp", TLA_CP, "tlc2.TLC", "-workers", str(workers), "-noGenerateSpecTE", "-cleanup"]
     if metadir:
